@@ -28,10 +28,11 @@ pub fn check(sc: &Scenario, out: &RunOutput) -> OracleResult {
         crate::peer::PeerRole::Connector => sc.stream_key(0, 1), // endpoint is the acceptor
         crate::peer::PeerRole::Acceptor => sc.stream_key(0, 0),
     };
-    let evs = w.events();
+    let evs = w.events_effective();
     let mut accepted: i64 = 0;
     let mut acked: i64 = 0;
     let mut sent: BTreeMap<u16, (usize, bool)> = BTreeMap::new();
+    let mut unacked: std::collections::VecDeque<u16> = Default::default();
     // stream offset at which each sequence number starts
     let mut start_off: BTreeMap<u16, u64> = BTreeMap::new();
     let mut blocked_since: Option<(T, u64)> = None;
@@ -86,19 +87,37 @@ pub fn check(sc: &Scenario, out: &RunOutput) -> OracleResult {
                     conn_over = true;
                 }
                 if let Some(n) = next_unsent {
+                    // acknowledges (cumulatively or selectively) data that was never sent
                     if seq_diff(p.ack, n) >= 0 {
                         hostile = true;
                     }
-                }
-                // bytes are freed from the ring only by the cumulative acknowledgement
-                let mut freed = 0i64;
-                for (s, (l, a)) in sent.iter_mut() {
-                    if !*a && seq_diff(*s, p.ack) <= 0 {
-                        *a = true;
-                        freed += *l as i64;
+                    if let Some(bits) = p.sack_bits() {
+                        for (k, b) in bits.iter().enumerate() {
+                            if *b && seq_diff(p.ack.wrapping_add(2).wrapping_add(k as u16), n) >= 0 {
+                                hostile = true;
+                            }
+                        }
                     }
                 }
-                let _ = covers;
+                // a segment is acknowledged cumulatively or selectively; the ring releases the
+                // longest acknowledged prefix (un-acked sequence numbers are kept in send order)
+                let mut freed = 0i64;
+                for s in unacked.iter() {
+                    if let Some((_, a)) = sent.get_mut(s) {
+                        if !*a && covers(p, *s) {
+                            *a = true;
+                        }
+                    }
+                }
+                while let Some(s) = unacked.front().copied() {
+                    match sent.get(&s) {
+                        Some((l, true)) => {
+                            freed += *l as i64;
+                            unacked.pop_front();
+                        }
+                        _ => break,
+                    }
+                }
                 if freed > 0 {
                     acked += freed;
                     freeing_ack_at = Some(t);
@@ -137,6 +156,7 @@ pub fn check(sc: &Scenario, out: &RunOutput) -> OracleResult {
                     Some((l, _)) => *l = len,
                     None => {
                         sent.insert(p.seq, (len, false));
+                        unacked.push_back(p.seq);
                     }
                 }
             }
